@@ -16,7 +16,7 @@ def run(ctx):
     ctx.harness(h, ["quote-events", "--maxlen", L, "--random", nrand, "--seed", ctx.seed, "--out", evp])
     toks = 0
     refused = 0
-    for e in core.read_ndjson(evp):
+    for e in core.iter_ndjson(evp):
         for q in e["q"]:
             if q["offered"]:
                 toks += 1
